@@ -326,6 +326,21 @@ def gen_history(prop, hid, rng, tier):
     if prop == "C08":
         h.directive("ORACLE sweep")
         h.raw("items - -")
+    if prop == "C07" and rng.random() < 0.3:
+        # drain with popitem until the map is empty, then once more (KeyError), then every
+        # reader / remover on the emptied map
+        m = h.m()
+        if m is not None and len(m) <= 400:
+            for _ in range(len(m) + 1):
+                h.popitem()
+            h.popitem()
+            for line in ("len", "bool", f"getitem {base}", f"get {base} 5", f"pop {base}", f"pop {base} 7",
+                         f"in {base}", "items - -"):
+                h.raw(line)
+            h.delete(base)
+            h.set(base)
+            h.popitem()
+            h.popitem()
     return h
 
 
